@@ -8,6 +8,11 @@
 //! 4 anything else (non-finite, out of range, composite).  The trace specification
 //! (spec/trace/Trace_FieldCodec.tla) recomputes the expected values from the codes `c`.
 //!
+//! Decoding must be a function of the frame bytes alone: the main pass interleaves decodes
+//! of truncated and of header-modified frames (results ignored), a second pass decodes every
+//! frame again in reversed order and the event records `again_same` (a comparison of two
+//! outputs of the code, not an oracle).
+//!
 //!   c03 run <vectors.ndjson> <trace.ndjson>
 //!   c03 probe <hex> ...        (decode frames and print the JSON, for replay files)
 use rs1090::decode::bds::bds09::AirborneVelocitySubType;
@@ -70,28 +75,76 @@ fn observe_field(m: &Message, name: &str, scale: f64) -> Value {
     json!([0, 0])
 }
 
+/// The text of one decode: the JSON of the message, or the kind of failure.  Only used to
+/// compare two outputs of the code with each other (`again_same`), never with an expectation.
+fn decode_text(frame: &[u8]) -> String {
+    match catch_unwind(|| Message::try_from(frame).map(|m| serde_json::to_string(&m))) {
+        Ok(Ok(Ok(js))) => js,
+        Ok(Ok(Err(e))) => format!("SERDE-ERR {e}"),
+        Ok(Err(e)) => format!("ERR {e}"),
+        Err(_) => "PANIC".to_string(),
+    }
+}
+
+fn fields_of(vec: &Value) -> Vec<(u32, u64)> {
+    vec["f"]
+        .as_array()
+        .expect("f")
+        .iter()
+        .map(|p| (p[0].as_u64().unwrap() as u32, p[1].as_u64().unwrap()))
+        .collect()
+}
+
+/// The same frame with one header field changed (same ME/MB): the 13-bit AC/ID field of
+/// DF4/5/20/21, the second field (CA, CF, VS) of the other formats.  Sealed like the original.
+fn other_header(fields: &[(u32, u64)], overlay: u32) -> Vec<u8> {
+    let mut f = fields.to_vec();
+    let df = f[0].1;
+    if matches!(df, 4 | 5 | 20 | 21) && f.len() > 4 && f[4].0 == 13 {
+        f[4].1 ^= 0x0080;
+    } else if f.len() > 1 {
+        f[1].1 ^= 1;
+    }
+    seal(&pack(&f), overlay)
+}
+
+/// Decoding is a function of the frame bytes.  Main pass: every vector is decoded once, in
+/// generated order; every 3rd decode is preceded (same thread) by the decode of a truncated
+/// prefix of the same frame, every 5th by the decode of the previous vector's frame and of
+/// the current frame with one header field changed (results ignored).  Second pass: every
+/// frame is decoded again in reversed order, without any interleaved call, and the event
+/// records whether the two outputs of the code are the same text (`again_same`).
 fn run(vectors: &str, out: &str) {
     let mut tr = Trace::create(out);
     let mut bad = 0usize;
-    for vec in read_lines(vectors) {
-        let fields: Vec<(u32, u64)> = vec["f"]
-            .as_array()
-            .expect("f")
-            .iter()
-            .map(|p| (p[0].as_u64().unwrap() as u32, p[1].as_u64().unwrap()))
-            .collect();
+    let mut events: Vec<Value> = Vec::new();
+    let mut frames: Vec<Vec<u8>> = Vec::new();
+    let mut first_text: Vec<String> = Vec::new();
+    let mut prev: Option<(Vec<(u32, u64)>, u32)> = None;
+    for (idx, vec) in read_lines(vectors).into_iter().enumerate() {
+        let fields = fields_of(&vec);
         let overlay = vec["ov"].as_u64().unwrap_or(0) as u32;
         let frame = seal(&pack(&fields), overlay);
         let obs = vec["obs"].as_array().expect("obs").clone();
+        if idx % 3 == 2 {
+            let _ = decode_text(&frame[..frame.len() / 2]);
+        }
+        if idx % 5 == 4 {
+            if let Some((pf, pov)) = &prev {
+                let _ = decode_text(&other_header(pf, *pov));
+            }
+            let _ = decode_text(&other_header(&fields, overlay));
+        }
         let decoded = catch_unwind(|| {
             Message::try_from(frame.as_slice()).map(|m| {
                 let js = serde_json::to_value(&m).ok();
-                (m, js)
+                let text = serde_json::to_string(&m).unwrap_or_else(|e| format!("SERDE-ERR {e}"));
+                (m, js, text)
             })
         });
         let mut v = Map::new();
-        let (outcome, json_ok) = match &decoded {
-            Ok(Ok((m, js))) => {
+        let (outcome, json_ok, text) = match &decoded {
+            Ok(Ok((m, js, text))) => {
                 for o in &obs {
                     let name = o[0].as_str().unwrap().to_string();
                     let path = o[1].as_array().unwrap();
@@ -107,21 +160,32 @@ fn run(vectors: &str, out: &str) {
                     };
                     v.insert(name, val);
                 }
-                ("ok", js.is_some())
+                ("ok", js.is_some(), text.clone())
             }
-            Ok(Err(_)) => ("err", false),
-            Err(_) => ("panic", false),
+            Ok(Err(e)) => ("err", false, format!("ERR {e}")),
+            Err(_) => ("panic", false, "PANIC".to_string()),
         };
         if outcome != "ok" {
             for o in &obs {
                 v.insert(o[0].as_str().unwrap().to_string(), json!([0, 0]));
             }
         }
-        let ev = json!({
+        events.push(json!({
             "k": vec["k"], "c": vec["c"], "f": vec["f"], "ov": vec["ov"], "s": vec["s"],
             "hex": hex::encode(&frame), "out": outcome, "json": if json_ok { "ok" } else { "none" },
             "v": Value::Object(v),
-        });
+        }));
+        first_text.push(text);
+        frames.push(frame);
+        prev = Some((fields, overlay));
+    }
+    // second pass, reversed order
+    let mut again: Vec<bool> = vec![false; frames.len()];
+    for i in (0..frames.len()).rev() {
+        again[i] = decode_text(&frames[i]) == first_text[i];
+    }
+    for (i, mut ev) in events.into_iter().enumerate() {
+        ev["again_same"] = Value::Bool(again[i]);
         if !check(&ev) {
             bad += 1;
         }
